@@ -72,7 +72,7 @@ def generate(rng, tier):
         if r is None: return
         A, kap = r
         trip = triplets_of(g, A)
-        rhs_kind = rhs or g.choice(["plain", "plain", "scaled", "scaled", "zero"])
+        rhs_kind = rhs or g.choice(["plain", "plain", "scaled", "scaled", "zero", "tiny"])
         guess_kind = guess or g.choice(["zero", "zero", "random", "random", "exact"])
         b, x0, xt = rhs_and_guess(g, n, trip, guess_kind, rhs_kind, ints)
         s = Sys(n, n, trip, b, x0, {"fam": fam, "rhs": rhs_kind, "guess": guess_kind})
